@@ -73,4 +73,16 @@ META = {
   "note": "Directed enumeration of kinds/stages/addressing (hundreds of cases), parameters drawn per case.",
   "technique": "runtime monitoring: exact-rollback oracle (state snapshot before create vs after cancel) over enumerated pending-transaction kinds",
  },
+ "C02": {
+  "text": "Runtime monitoring with a mutation campaign on the reply slate: every finalization that succeeds is judged by an independent exactness oracle (validation, recomputed inputs/change from the seed, agreed fee, stored-transaction bytes, acceptance by a real chain), every refusal by a frame condition and cancellability.",
+  "design_ref": "DESIGN.md section 5 C02",
+  "note": "Alterations are a fixed catalogue plus attacker-level re-signed replies; the honest counterparty's outputs are taken from its real reply.",
+  "technique": "runtime monitoring: 'success implies exact' oracle over finalizations of systematically altered replies, with a real chain as acceptance oracle",
+ },
+ "C11": {
+  "text": "Runtime monitoring: proof-carrying sends with altered replies and altered exported proofs; acceptance is judged by an independent ed25519 verification of the recipient signature over the amount fixed at initiation and the excess of the returned transaction, and by kernel presence on the real chain.",
+  "design_ref": "DESIGN.md section 5 C11",
+  "note": "Independent verification uses ed25519-dalek directly; the proof message layout (amount big-endian || excess || sender key) is taken from the property's wording and the wallet's documented format.",
+  "technique": "runtime monitoring: soundness oracle over altered replies and altered exported proofs on real wallets and chain",
+ },
 }
